@@ -10,7 +10,7 @@ import shutil
 import subprocess
 import sys
 
-PROPS = ['C%02d' % i for i in range(1, 21)]
+PROPS = os.environ.get('PROPS', '').split() or ['C%02d' % i for i in range(1, 21)]   # PROPS=own: each seed's own property
 
 
 def sh(cmd, **kw):
@@ -43,7 +43,7 @@ def main():
             if rc:
                 print('cannot apply', sid, o)
                 continue
-        for p in PROPS:
+        for p in ([sid[:3]] if PROPS == ['own'] else PROPS):
             jobs.append((sid, p, wt))
     matrix = {}
     with concurrent.futures.ThreadPoolExecutor(max_workers=14) as ex:
@@ -56,11 +56,10 @@ def main():
     old = {}
     if os.path.exists(path):
         old = json.load(open(path))
-    old.update(matrix)
+    for sid, row in matrix.items():
+        old.setdefault(sid, {}).update(row)
+        print(sid, ' '.join('%s:%s' % (p[1:], r) for p, r in sorted(row.items()) if r != 'ok'))
     json.dump(old, open(path, 'w'), indent=1, sort_keys=True)
-    for sid in seeds:
-        row = matrix.get(sid, {})
-        print(sid, ' '.join('%s:%s' % (p[1:], row.get(p, '?')) for p in PROPS if row.get(p) != 'ok'))
 
 
 if __name__ == '__main__':
